@@ -85,7 +85,7 @@ TRUSTED = [
 ASSUMPTIONS = [
     "contention-based-forwarding timers are virtual: the copy a forwarder buffered is sent at the end of the frame that "
     "armed the timer (attribution of forwarded PDUs to frames); Location Service retransmission timers never fire",
-    "watchdog: a receive thread that makes no progress for 6 s of wall time while parked at one source line is blocked "
+    "watchdog: a receive thread that makes no progress for 8 s of wall time while parked at one source line is blocked "
     "(reported as a violation with the line); below that a slow frame is not judged",
     "a frame counts as 'handled' once its handler reaches duplicate_address_detection (all headers decoded)",
     "a frame counts as DISCARDED when processing it raised or returned without any GN-DATA.indication and without any "
@@ -152,7 +152,7 @@ class vtimers:
         VTimer.pending.clear()
 
 
-WATCHDOG_S = 6.0       # no progress for this long AND the thread parked at one source line -> the receive path HANGS
+WATCHDOG_S = 8.0       # no progress for this long AND the thread parked at one source line -> the receive path HANGS
 HANGS = []             # one entry per hang observed in this process (hung daemon threads stay parked; keep them few)
 
 
@@ -187,7 +187,7 @@ def guarded(fn, progress, limit=None):
             last, t_last, spots = p, _time.monotonic(), []
             continue
         spots.append(where())
-        if _time.monotonic() - t_last > limit and len(spots) >= 4 and len(set(spots[-4:])) == 1:
+        if _time.monotonic() - t_last > limit and len(spots) >= 6 and len(set(spots[-6:])) == 1:
             HANGS.append(spots[-1])
             return False, None, spots[-1]
 
